@@ -1279,7 +1279,7 @@ func (s *shardedSearcher) replace(shards map[string]zoekt.Searcher) {
 	metricShardsLoaded.Set(float64(len(ranked)))
 }
 
-func loadShard(fn string) (zoekt.Searcher, error) {
+func loadShard(fn string) (_ zoekt.Searcher, err error) {
 	f, err := os.Open(fn)
 	if err != nil {
 		return nil, err
@@ -1289,6 +1289,19 @@ func loadShard(fn string) (zoekt.Searcher, error) {
 	if err != nil {
 		return nil, err
 	}
+
+	// The reader trusts offsets and sizes found in the file. A corrupt shard
+	// can therefore panic while it is loaded. We are called from goroutines
+	// without a recover, so contain the panic like we do for searches
+	// (searchOneShard): the shard fails to load instead of taking down the
+	// process.
+	defer func() {
+		if r := recover(); r != nil {
+			iFile.Close()
+			err = fmt.Errorf("NewSearcher(%s): panic: %v\n%s", fn, r, debug.Stack())
+		}
+	}()
+
 	s, err := index.NewSearcher(iFile)
 	if err != nil {
 		iFile.Close()
